@@ -32,6 +32,7 @@ MNext ==
   \/ \E i \in c.wf : Step(EnvReset(c, i), <<"reset">>)
   \/ \E i \in 1..N(c) : Step(DiscEnd(c, i), <<"discend">>)
   \/ \E i \in 1..N(c) : Step(DiscProceed(c, i), <<"i">>)
+  \/ \E i \in 1..N(c) : Step(UNION {DiscEnd(y, i) : y \in DiscProceed(c, i)}, <<"i">>)
   \/ /\ GenMode /\ ~fin /\ Len(hist) >= 2 /\ fin' = TRUE /\ UNCHANGED <<c, k, hist>>
      /\ PrintT(<<"SCHED", ToJson(<<c.hook, hist>>)>>)
 MSpec == MInit /\ [][MNext]_mvars
